@@ -152,6 +152,24 @@ ROUND7 = {
 }
 for _k, _v in ROUND7.items():
     ROUND3[_k] = (ROUND3.get(_k, "") + " " + _v).strip()
+ROUND8 = {
+ 'C02': 'Entries of other entities under signatures that are no maps (string, number, array, boolean, null).',
+ 'C03': 'Proto-events whose content is null, an array or a scalar, with no signatures of their own.',
+ 'C05': "Generated strings contain '<', '>', '&' and texts that look like JSON escapes (backslash-u0026 and the like, as characters).",
+ 'C08': 'Proposals that drop one notifications entry and add another in the same event.',
+ 'C10': 'Directed version-1 resolutions (a kick against renames) with auth events for keys that are in conflict, 24 calls each, compared with the reference.',
+ 'C11': 'The three lists of the deprecated ResolveStateConflictsV2 handed over as windows of one array, in all six layouts.',
+ 'C12': "One-call batches for 70-300 servers most of which cannot be reached; the fetchers over the library's own HTTP client (scripted transport) with key documents that carry look-alike members of server_name / valid_until_ts.",
+ 'C13': 'Tampering: a line naming a foreign destination next to a line without destination parameter, both orders.',
+ 'C14': 'States before the event in which an event of another room stands for the power levels / join rules / a membership.',
+ 'C15': "The signature guard is also made false by the right key in the wrong state: expired before the event (every version), valid_until_ts before the event (versions that check validity strictly). PerformJoin echoes that carry the sent event ID without the joining server's signature.",
+ 'C16': "Clients that have a DNS cache with lists and lists of their own, against loopback listeners on 443 / 8448: both lists hold. SRV outcome 'deprecated service name, one malformed target'.",
+ 'C17': "43-character room IDs with CR / LF / '=' / NUL in or behind them, and ones outside the canonical encoding of 32 bytes.",
+ 'C18': 'Well-known replies (directed and byte-mutated Cache-Control / Expires lines, bodies, statuses) through LookupWellKnown.',
+ 'C19': 'Shared events on which the holder called Redact() before sharing them.'
+}
+for _k, _v in ROUND8.items():
+    ROUND3[_k] = (ROUND3.get(_k, "") + " " + _v).strip()
 for _k, _v in ROUND3.items():
     CLAIMS[_k]["note"] = CLAIMS[_k]["note"] + " " + _v
 
